@@ -49,6 +49,15 @@ class CleanPass(FunctionPass):
             if block in predecessors:
                 continue
 
+            # Do not remove if a predecessor jumps to the successor as well
+            # and the successor has phi nodes: a phi node has one input per
+            # predecessor block, so it could not tell both edges apart:
+            tgt = block.last_instruction.target
+            if tgt.phis and any(
+                pred in tgt.predecessors for pred in predecessors
+            ):
+                continue
+
             # Update successor incoming blocks:
             for successor in successors:
                 successor.replace_incoming(block, predecessors)
